@@ -12,8 +12,8 @@ use sv_parser::*;
 
 pub fn cases(tier: Tier) -> u64 {
     match tier {
-        Tier::Quick => 6400,
-        Tier::Thorough => 400000,
+        Tier::Quick => 24000,
+        Tier::Thorough => 500000,
         Tier::Tiny => 48,
     }
 }
